@@ -115,7 +115,7 @@ def check_c19(ctx):
     errs = [t for t in traces if isinstance(t, dict)]
     if errs:
         raise Machinery("driver failed: %s" % errs[0]["error"])
-    res = validate.validate("SessionStoreTrace", traces, trace_constants(), work=os.path.join(ctx.work, "val"), chunk=300)
+    res = validate.validate("SessionStoreTrace", traces, trace_constants(), work=os.path.join(ctx.work, "val"), chunk=300 if quick else 60, heap="2g" if quick else "3g", jobs=16 if quick else 8)
     ctx.cov["states"] += res["states"]
     ctx.cov["transitions"] += res["transitions"]
     ctx.cov["traces_validated_against_impl"] += len(traces)
